@@ -22,6 +22,8 @@ type machineCase struct {
 	Ops    []op `json:"ops"`
 }
 
+var machineChecks int
+
 var (
 	machineTail   []op                  // what this process executed in earlier cases (bounded)
 	machineMemory = map[string]string{} // op -> first observation seen in this process
@@ -51,8 +53,10 @@ var c13MachineCheck = register("C13", "c13.machine", func(c *machineCase) error 
 	if err := run(c.Ops, "history"); err != nil {
 		return err
 	}
-	runtime.GC() // finalizers / pool clean-up must not touch what callers still hold
-	runtime.GC()
+	if machineChecks++; machineChecks%16 == 0 {
+		runtime.GC() // finalizers / pool clean-up must not touch what callers still hold
+		runtime.GC()
+	}
 	for _, w := range watch {
 		if w.changed() {
 			return failf("C13 later-mutation", "caller-owned memory changed after the call returned: %s", w.name)
